@@ -16,7 +16,7 @@ RULE = ('element trees (depth<=3) built through the API from oracle-valid child 
         'public-API dump (class, attributes, value, xsd_check, ordered children) of e is identical before and after '
         'copying and equals the copy\'s; then a drawn mutation (attribute set / removed, value set, child added / '
         'removed, nested attribute set) is applied to the copy and the original\'s dump and text must not change, '
-        'and vice versa.  The same for a deep copy of a NESTED element (child or grand-child, drawn): the copy '
+        'and vice versa; a second copy taken after those mutations equals the mutated original and leaves the first copy alone.  The same for a deep copy of a NESTED element (child or grand-child, drawn): the copy '
         'must equal (dump and text) a detached rebuild of the same sub-plan, and must not change when the '
         'original\'s ancestor is removed from the root or the original subtree is mutated.  Non-trivial = >=1 attribute whose final state differs from the constructor keywords and '
         '>=1 nested child; distinct by plan.')
@@ -187,10 +187,12 @@ def mutate(e, m):
             call(setattr, kids[m[1] % len(kids)], 'value_', m[2])
 
 
-def check(plan, muts, source='api'):
+def check(plan, muts, source='api', muts2=None):
     s = schema()
     t = s.element_type[plan['element']]
     inp = {'plan': plan, 'mutations': muts}
+    if muts2:
+        inp['mutations2'] = muts2
 
     def F(kind, observed):
         return {'kind': kind, 'type': t, 'site': None, 'input': inp, 'observed': observed,
@@ -222,6 +224,22 @@ def check(plan, muts, source='api'):
         mutate(e, m)
     if dump(c) != dc2 or text(c) != tc2:
         return F('copy-affected-by-mutating-original', {'mutations': rev}), 'built'
+    # a SECOND copy, taken after the original has changed (by mutations of its own, which the first copy never
+    # saw), is a copy of the original as it is now
+    for m in (muts2 or []):
+        mutate(e, m)
+    if muts2 and (dump(c) != dc2 or text(c) != tc2):
+        return F('copy-affected-by-mutating-original', {'mutations': muts2}), 'built'
+    d3, t3 = dump(e), text(e)
+    r2 = call(copy.deepcopy, e)
+    if not r2.ok:
+        return F('deepcopy-raised', '%s: %s (second copy)' % (r2.etype, r2.msg[:200])), 'built'
+    t4 = text(r2.value)
+    if t4 != t3 or dump(r2.value) != d3:
+        return F('copy-serialises-differently', {'second copy after mutating the original': True,
+                                                 'original': t3[1][:300], 'copy': text(r2.value)[1][:300]}), 'built'
+    if dump(c) != dc2 or text(c) != tc2:
+        return F('copy-affected-by-mutating-original', {'by': 'taking a second copy'}), 'built'
     return None, 'built'
 
 
@@ -310,7 +328,7 @@ def replay_case(rec):
     inp = rec['input']
     if inp.get('nested'):
         return check_nested(inp['plan'], inp['nested'], inp['mutations'])[0]
-    return check(inp['plan'], inp['mutations'])[0]
+    return check(inp['plan'], inp['mutations'], muts2=inp.get('mutations2'))[0]
 
 
 def nontrivial(plan):
@@ -377,7 +395,8 @@ def run_shard(ctx, shard, acc):
             else data.draw(st.sampled_from(names))
         plan = draw_plan(data, el, depth=data.draw(st.integers(2, 3)))
         muts = draw_mutations(data, plan)
-        f, status = check(plan, muts)
+        muts2 = draw_mutations(data, plan) if data.draw(st.integers(0, 1)) else None
+        f, status = check(plan, muts, muts2=muts2)
         acc.count(status)
         if status == 'built':
             acc.case({'plan': plan, 'mutations': muts}, nontrivial(plan), len(str(plan)))
